@@ -2189,7 +2189,10 @@ def _config_str(
     macros = {}
     for (scope, selector), config in configuration_object.items():
       if _REGISTRY[selector].wrapped == macro:  # pylint: disable=comparison-with-callable
-        macros[scope, selector] = config
+        # As for other parameters, values without a literal representation
+        # are omitted (they would make the config string unparseable).
+        if 'value' in config and _is_literally_representable(config['value']):
+          macros[scope, selector] = config
     if macros:
       formatted_statements.append('# Macros:')
       formatted_statements.append('# ' + '=' * (max_line_length - 2))
